@@ -10,6 +10,7 @@ import (
 
 func init() {
 	reg("C09_Transfer", C09_Transfer)
+	reg("C09_TransferOnMetachain", C09_TransferOnMetachain)
 	reg("C09_NFTTransferSender", C09_NFTTransferSender)
 	reg("C09_NFTTransferDest", C09_NFTTransferDest)
 	reg("C09_MultiTransferSender", C09_MultiTransferSender)
@@ -67,6 +68,22 @@ func C09_Transfer() {
 	if s.W.Shards.ComputeId(s.In.RecipientAddr) == vmcommon.MetachainShardId {
 		verif.Assert("metachain-rejected", s.Err != nil)
 		verif.Reach("metachain", true)
+	}
+	admissibleCheck(s, s.Dst, s.In.RecipientAddr, vmcommon.MinLenArgumentsESDTTransfer)
+}
+
+// C09_TransferOnMetachain: the same when the executing shard is the metachain itself, so that
+// a present destination (arrival side, or sender and destination both local) is a metachain
+// address: every such transfer is rejected.
+func C09_TransferOnMetachain() {
+	o := payOpt
+	o.SelfMeta = true
+	s := scnTransfer(o)
+	s.Run()
+	if s.W.Shards.ComputeId(s.In.RecipientAddr) == vmcommon.MetachainShardId {
+		verif.Assert("metachain-rejected", s.Err != nil)
+		verif.Reach("metachain", true)
+		verif.Reach("metachain-destination-present", s.Dst != nil)
 	}
 	admissibleCheck(s, s.Dst, s.In.RecipientAddr, vmcommon.MinLenArgumentsESDTTransfer)
 }
